@@ -21,6 +21,17 @@ func checkC16(ix *index, add addFn) {
 			}
 		}
 	}
+	// the connection that actually reports Disconnected after the call is the one
+	// it was carried out on (between dial and SetClient the "current" one is
+	// still the previous client)
+	if ix.discAt >= 0 {
+		for i := ix.discAt; i < len(ix.tr) && i < ix.end(); i++ {
+			if ix.tr[i].Kind == "state" && ix.tr[i].S == "Disconnected" {
+				discConn = ix.tr[i].Conn
+				break
+			}
+		}
+	}
 	discRet := -1
 	if ix.discAt >= 0 {
 		op := ix.tr[ix.discAt].Op - 1
@@ -113,7 +124,7 @@ func checkC16(ix *index, add addFn) {
 		if disc < 0 && end >= 0 && ix.complete {
 			if nClosed != 1 {
 				add("closed", fmt.Sprintf("conn %d ended (%s) without Disconnect: Closed reported %d times", k, c.endKind, nClosed), nil)
-			} else if ix.tr[closedAt].T != ix.tr[end].T {
+			} else if ix.tr[closedAt].T != ix.tr[end].T && len(sc.Cfg.Yields) == 0 {
 				add("closed", fmt.Sprintf("conn %d ended at t=%dns, Closed reported at t=%dns", k, ix.tr[end].T, ix.tr[closedAt].T), nil)
 			}
 		}
